@@ -1,11 +1,16 @@
 #!/bin/bash
-# usage: trymutant.sh <patch> <ID> [tier]  — apply a patch to /repo, run the check, always revert
-p="$1"; id="$2"; tier="${3:-quick}"
-cd /repo || exit 2
-if [ -n "$(git status --porcelain)" ]; then echo "repo dirty"; exit 2; fi
+# usage: trymutant.sh <patch> <ID> [tier] [slot]
+# Runs one check against a scratch worktree of /repo's HEAD with the patch applied (VERIF_REPO, see
+# vcheck); /repo itself is not touched. The worktree /tmp/try/<slot> is reused; remove with
+#   git -C /repo worktree remove --force /tmp/try/<slot>
+p="$(readlink -f "$1")"; id="$2"; tier="${3:-quick}"; slot="${4:-s0}"
+wt=/tmp/try/$slot
+mkdir -p /tmp/try
+if [ ! -d "$wt" ]; then git -C /repo worktree add -q --detach "$wt" HEAD || exit 2; fi
+cd "$wt" && git checkout -q --detach "$(git -C /repo rev-parse HEAD)" && git checkout -- . && git clean -fdq
 git apply "$p" || { echo "PATCH DOES NOT APPLY"; exit 3; }
-cd /verif && timeout 1800 ./vcheck "$id" "$tier" > /tmp/trymutant.$$.log 2>&1; rc=$?
-git -C /repo checkout -- . ; git -C /repo clean -fdq
-grep -aE "^VIOLATION|^KNOWN|violations=|CHECK-BROKEN|vcheck:" /tmp/trymutant.$$.log | head -8
-rm -f /tmp/trymutant.$$.log
+log=/tmp/try/$slot.log
+cd /verif && VERIF_REPO="$wt" timeout 3000 ./vcheck "$id" "$tier" > "$log" 2>&1; rc=$?
+cd "$wt" && git checkout -- . && git clean -fdq
+grep -aE "^VIOLATION|^KNOWN|violations=|CHECK-BROKEN|vcheck:" "$log" | cut -c1-300 | head -${TRY_LINES:-8}
 echo "exit=$rc"
